@@ -15,6 +15,7 @@
 EXTENDS Integers, Sequences, FiniteSets, TLC, Json, IOUtils, QSProb
 
 S == INSTANCE LPSem
+ED == INSTANCE ExactDriver WITH MaxMpf <- 12
 
 Tr == ndJsonDeserialize(IOEnv.TRACE)
 VerdictFile == IOEnv.VERDICT
@@ -344,7 +345,17 @@ Step(ev) ==
                    vDef == IF c = "exact" /\ wf /\ ~s.limits /\ ~(ev.rval = 0 /\ Definitive(ev.status))
                            THEN {V(ev, {"C03"}, "exact solver gave no definitive status on a well-formed LP (rval " \o ToString(ev.rval) \o ", status " \o ToString(ev.status) \o ")")}
                            ELSE {}
-               IN R([Mutated(s) EXCEPT !.edited = FALSE], vOpt \cup vInf \cup vTruth \cup vDef)
+                   \* the events reported by the guarded hook must be a path of the ladder machine (ExactDriver.tla)
+                   vLadder == IF c = "exact" /\ "hook" \in DOMAIN ev /\ ev.hook_over = 0
+                              THEN (LET run == ED!Run(ev.hook) IN
+                                    IF run.s = ED!Reject \/ run.s.pc # "done"
+                                    THEN {V(ev, {"C01", "C02", "C03"}, "hook events of QSexact_solver are not a path of the ladder machine (stopped before hook event " \o ToString(run.k) \o ")")}
+                                    ELSE (IF ev.rval = 0 /\ ev.status \in {1, 2} /\ ~run.s.certified
+                                          THEN {V(ev, IF ev.status = 1 THEN {"C01"} ELSE {"C02"}, "OPTIMAL/INFEASIBLE returned without a passing exact test (ladder exhausted)")} ELSE {})
+                                         \cup (IF ev.hook[Len(ev.hook)].a # ev.status \/ ev.hook[Len(ev.hook)].b # ev.rval
+                                               THEN {V(ev, {"C03"}, "returned status/rval differ from the driver's return event")} ELSE {}))
+                              ELSE {}
+               IN R([Mutated(s) EXCEPT !.edited = FALSE], vOpt \cup vInf \cup vTruth \cup vDef \cup vLadder)
           [] c = "sol" ->
                IF ~s.sync THEN R(s, {})
                ELSE
@@ -365,9 +376,27 @@ Step(ev) ==
                            THEN {V(ev, IF s.taint = {} THEN {"C06"} ELSE s.taint, "stored solution / basis / status changed although no call since the last observation was allowed to change them")}
                            ELSE {}
                IN R([s EXCEPT !.obs = obsNow, !.mut = FALSE, !.taint = {}], vCert \cup vGs \cup vNamed \cup vObs)
+          [] c = "get_infeas" ->
+               IF ~s.sync \/ ev.rval # 0 THEN R(Touched(s, "C06"), {})
+               ELSE LET ds == S!FarkasDefects(L, ev.y) IN
+                    R(Touched(s, "C06"), IF ds = {} THEN {} ELSE {V(ev, {"C02"}, "infeasibility vector of the rational simplex is not an exact Farkas certificate: " \o ToString(DefectText(ds)))})
+          [] c = "binv" ->
+               IF ~s.sync \/ ev.rv_order # 0 THEN R(Touched(s, "C06"), {})
+               ELSE LET ord == [k \in 1..L.m |-> ev.order[k] + 1]
+                        okOrd == Len(ev.order) = L.m /\ (\A k \in 1..L.m : ord[k] \in 1..(L.n + L.m)) /\ NoDup(ev.order)
+                        okBas == "cstat" \in DOMAIN ev =>
+                                   {ord[k] : k \in 1..L.m} = {j \in 1..L.n : ev.cstat[j] = "1"} \cup {L.n + i : i \in {i \in 1..L.m : ev.rstat[i] = "1"}}
+                        badInv == IF okOrd /\ ev.binv_fail = 0 THEN {k \in 1..L.m : ~S!InverseRowOK(L, ord, k, ev.binv[k])} ELSE {}
+                        badTab == IF okOrd /\ ev.binv_fail = 0 /\ ev.tab_fail = 0 THEN {k \in 1..L.m : ~S!TableauRowOK(L, ev.binv[k], ev.tab[k])} ELSE {}
+                    IN R(Touched(s, "C06"),
+                         (IF okOrd THEN {} ELSE {V(ev, {"C13"}, "basis order is not a list of distinct column indices")})
+                         \cup (IF okBas THEN {} ELSE {V(ev, {"C13"}, "basis order does not name the basic variables of the stored basis")})
+                         \cup (IF ev.binv_fail = 0 /\ ev.tab_fail = 0 THEN {} ELSE {V(ev, {"C13"}, "a basis-inverse / tableau row query failed although the basis order is available")})
+                         \cup (IF badInv = {} THEN {} ELSE {V(ev, {"C13"}, "row_i(B^-1) * B # e_i for rows " \o ToString(badInv))})
+                         \cup (IF badTab = {} THEN {} ELSE {V(ev, {"C13"}, "tableau row # row_i(B^-1) * [A | logicals] for rows " \o ToString(badTab))}))
           [] c = "write_basis" -> R(Touched(s, "C14"), {})
           [] c \in {"write_prob"} -> R(Touched(s, "C08"), {})
-          [] c \in {"get_basis", "get_basis_array", "binv", "binv_row", "tableau_row", "basis_order", "get_infeas", "copy_conv"} -> R(Touched(s, "C06"), {})
+          [] c \in {"get_basis", "get_basis_array", "binv_row", "tableau_row", "basis_order", "copy_conv"} -> R(Touched(s, "C06"), {})
           [] c \in {"load_basis", "load_basis_array", "read_and_load_basis"} -> IF ev.rval = 0 THEN R(Mutated(s), {}) ELSE R(Failed(s, "C07"), {})
           [] c \in {"basis_optimalstatus", "basis_dualstatus", "verify", "pivotin_row", "pivotin_col", "compute_row_norms"} -> R(Mutated(s), {})
           [] OTHER -> R(s, {})
@@ -408,16 +437,22 @@ Next ==
              LET r == Step(ev)
                  s0 == st[ev.h]
                  \* ghost answer map (C04/C05): definitive results per LP content
-                 isSolve == ev.call \in {"exact", "opt_primal", "opt_dual"} /\ s0.live /\ s0.sync /\ ev.rval = 0 /\ Definitive(ev.status)
+                 isSolveEv == ev.call \in {"exact", "opt_primal", "opt_dual"} /\ s0.live /\ s0.sync /\ ev.rval = 0 /\ Definitive(ev.status)
+                 isSolObs == ev.call = "sol" /\ s0.live /\ s0.sync /\ ~s0.edited /\ SolAvail(ev) /\ ev.rv_status = 0 /\ ev.status = 1
+                 isSolve == isSolveEv \/ isSolObs
                  cont == IF isSolve THEN Content(s0.lp) ELSE <<>>
-                 val == IF isSolve /\ ev.status = 1 /\ ev.call = "exact" /\ ev.wantxy = 1 THEN S!ObjVal(s0.lp, SubSeq(ev.x, 1, s0.lp.n)) ELSE "?"
+                 val == IF isSolObs THEN ev.objval
+                        ELSE IF isSolveEv /\ ev.status = 1 /\ ev.call = "exact" /\ ev.wantxy = 1 THEN S!ObjVal(s0.lp, SubSeq(ev.x, 1, s0.lp.n)) ELSE "?"
+                 stat == IF isSolObs THEN 1 ELSE ev.status
                  prior == IF isSolve THEN {a \in ans : a.c = cont} ELSE {}
-                 clash == {a \in prior : a.status # ev.status \/ (a.val # "?" /\ val # "?" /\ a.val # val)}
+                 clash == {a \in prior : a.status # stat \/ (a.val # "?" /\ val # "?" /\ a.val # val)}
+                 a1 == CHOOSE a \in clash : TRUE
              IN
              /\ st' = [st EXCEPT ![ev.h] = r.s]
              /\ viol' = viol \cup r.v \cup Quiet(ev)
-                        \cup (IF clash = {} THEN {} ELSE {V(ev, {"C04", "C05"}, "definitive answer differs from an earlier solve of the same LP content (earlier event " \o ToString((CHOOSE a \in clash : TRUE).n) \o ")")})
-             /\ ans' = IF isSolve THEN ans \cup {[c |-> cont, status |-> ev.status, val |-> val, n |-> ev.n]} ELSE ans
+                        \cup (IF clash = {} THEN {} ELSE {V(ev, {"C04", "C05"}, "definitive answer (" \o ev.call \o ": status " \o ToString(stat) \o ", value " \o val
+                                   \o ") differs from an earlier one for the same LP content (" \o a1.call \o ": status " \o ToString(a1.status) \o ", value " \o a1.val \o ", event " \o ToString(a1.n) \o ")")})
+             /\ ans' = IF isSolve THEN ans \cup {[c |-> cont, status |-> stat, val |-> val, n |-> ev.n, call |-> ev.call]} ELSE ans
              /\ UNCHANGED <<slot, glob>>
           ELSE
              /\ viol' = viol \cup Quiet(ev) /\ UNCHANGED <<st, slot, ans, glob>>
@@ -431,6 +466,7 @@ Next ==
                              !.unb = @ + (IF ev.call = "exact" /\ ev.rval = 0 /\ ev.status = 3 THEN 1 ELSE 0),
                              !.witnesses = @ + (IF ev.call = "witness" THEN 1 ELSE 0),
                              !.rejected = @ + (IF "rval" \in DOMAIN ev /\ ev.rval # 0 THEN 1 ELSE 0),
+                             !.binv = @ + (IF ev.call = "binv" /\ ev.rv_order = 0 THEN 1 ELSE 0),
                              !.quiet = @ + (IF "hon" \in DOMAIN ev /\ ev.hon = 1 THEN 1 ELSE 0)]
 
 Spec == Init /\ [][Next]_vars
